@@ -47,6 +47,10 @@ def analyse_alloc(I, fname, sz, A, n):
     other = [nm for nm, a, l in S.calls if nm not in PRIMS]
     if other:
         return UNDECIDED, "calls %s" % other[:3], rule, None, None
+    if not prims and n == 0 and S.ret is not None and T.is_zero(S.ret) and not S.accesses:
+        # no storage requested: a null pointer is aligned and addresses 0 bytes; the matching deallocate must
+        # then be harmless for (nullptr, 0)
+        return HOLDS, "allocate(0) returns nullptr without allocating", rule, None, {"prim": None, "path": "null"}
     if len(prims) != 1:
         return REFUTED, "%d allocation primitives called: %s" % (len(prims), [p[0] for p in prims]), rule, {"n": n}, None
     nm, args = prims[0]
@@ -143,12 +147,23 @@ def analyse_dealloc(I, fname, sz, A, n, path, book_off):
     other = [nm for nm, a, l in S.calls if nm not in ("free", "_mm_free")]
     if other:
         return UNDECIDED, "calls %s" % other[:3], rule, None
+    if path == "null" and not frees and not [a for a in S.accesses if a.base[0] != "alloca"]:
+        return HOLDS, "deallocate(nullptr, 0) does nothing", rule, None
     if len(frees) != 1:
         return REFUTED, "%d calls to free" % len(frees), rule, {"n": n}
     arg = frees[0][1][0]
     p = T.arg(0, 0, 64)
     if any(a.kind == "w" and a.base[0] != "alloca" for a in S.accesses):
         return REFUTED, "deallocate writes memory", rule, {"n": n}
+    if path == "null":
+        rd = [a for a in S.accesses if a.base is p or (a.base[0] != "alloca" and any(lf[2] == 0 for lf in T.leaves(a.base, ("arg",))))]
+        if rd:
+            return REFUTED, ("allocate(%d) returned nullptr without allocating, but deallocate(p, %d) %s %d byte(s) at p%+d: "
+                             "a null-pointer access" % (n, n, "reads" if rd[0].kind == "r" else "writes", rd[0].size or 0, rd[0].off)), rule, {
+                                 "n": n, "p": "nullptr (the value allocate(0) returned)"}
+        if arg is p:
+            return HOLDS, "free(nullptr) is a no-op", rule, None
+        return REFUTED, "frees %s for the null pointer allocate(0) returned" % T.show(arg, 4, ["p", "n"]), rule, {"n": n}
     if path in ("malloc", "aligned_alloc", "posix_memalign"):
         if arg is p:
             return HOLDS, "free(p)", rule, None
